@@ -25,8 +25,109 @@ class Lane(LaneBase):
 
     def cases(self, tier, rng):
         yield from histories.gen_cases(tier, rng, 1500, 8000)
+        yield from self.ctor_cases(tier, rng)
         if tier == 'thorough':
             yield from exhaustive.cases()
+
+    # -- the (deprecated, still public) constructor arguments input_list / output_list / fully_connected ----------------
+    def ctor_cases(self, tier, rng):
+        for _ in range(150 if tier == 'quick' else 1500):
+            cls = 'ts' if rng.random() < 0.5 else 'plain'
+            gen = histories.Gen(rng, cls)
+
+            def some(k):
+                if rng.random() < 0.15:
+                    return None
+                return [gen.any_name() for _ in range(rng.choice((0, 1, 2, 2, 3)))] if rng.random() < 0.2 else \
+                    rng.sample(gen.pool, min(len(gen.pool), rng.choice((0, 1, 2, 3))))
+            ins, outs = some(0), some(1)
+            if ins and outs and rng.random() < 0.15:
+                outs = outs + [rng.choice(ins)]          # a name on both sides: duplicate node
+            fully = rng.random() < 0.7
+            g = self.construct(cls, ins, outs, fully)
+            ops = []
+            if not isinstance(g, str):
+                gen.g = g
+                ops = gen.history(rng.randint(0, 6), False)
+            yield {'kind': 'ctor', 'cls': cls, 'ins': ins, 'outs': outs, 'fully': fully, 'ops': ops,
+                   'warm': rng.random() < 0.5}
+
+    @staticmethod
+    def construct(cls, ins, outs, fully):
+        import warnings
+        from cai_causal_graph import CausalGraph, TimeSeriesCausalGraph
+        C = TimeSeriesCausalGraph if cls == 'ts' else CausalGraph
+        try:
+            with warnings.catch_warnings():
+                warnings.simplefilter('ignore')
+                return C(input_list=None if ins is None else list(ins), output_list=None if outs is None else list(outs),
+                         fully_connected=fully)
+        except RecursionError:
+            raise
+        except Exception as e:  # noqa: BLE001
+            return 'err ' + impl.err_name(e)
+
+    def run_ctor(self, case):
+        cls, ins, outs, fully = case['cls'], case['ins'], case['outs'], case['fully']
+        # what the documentation says the arguments mean: add_nodes_from(inputs), add_nodes_from(outputs),
+        # add_fully_connected_nodes(inputs, outputs) -- replayed through the ordinary API on a fresh graph (and on the model)
+        steps = []
+        if ins is not None:
+            steps.append(['add_nodes_from', list(ins)])
+        if outs is not None:
+            steps.append(['add_nodes_from', list(outs)])
+        if fully and ins is not None and outs is not None:
+            steps.append(['add_fully_connected', list(ins), list(outs)])
+        ref = impl.new_graph(cls)
+        lines = [f'g new h {cls} {impl.enc_meta(None)}']
+        out = ['ok']
+        first_err = None
+        tags = set()
+        for st in steps:
+            lines.append(impl.op_line('h', st))
+            r = impl.apply_op(ref, st)
+            out.append(r)
+            if r != 'ok':
+                first_err = r
+                break
+        oracle = []
+        g = self.construct(cls, ins, outs, fully)
+        if isinstance(g, str):
+            tags.add('ctor:' + g[4:])
+            if g != first_err:
+                oracle.append(f'{cls} constructor with input_list={ins!r} output_list={outs!r} fully_connected={fully} '
+                              f'raised {g[4:]}; the documented equivalent sequence gives {first_err or "a graph"}')
+            return {'lines': lines, 'impl': out, 'oracle': oracle, 'nontrivial': True,
+                    'key': repr(('ctor', cls, ins, outs, fully)), 'tags': sorted(tags)}
+        tags.add('ctor:ok')
+        if first_err is not None:
+            oracle.append(f'{cls} constructor with input_list={ins!r} output_list={outs!r} fully_connected={fully} '
+                          f'returned a graph; the documented equivalent sequence raises {first_err[4:]}')
+            return {'lines': lines, 'impl': out, 'oracle': oracle, 'nontrivial': True,
+                    'key': repr(('ctor', cls, ins, outs, fully)), 'tags': sorted(tags)}
+        lines.append('g obs h')
+        out.append(impl.obs(g))
+        nok = 0
+        for op in case['ops']:
+            lines.append(impl.op_line('h', op))
+            r = impl.apply_op(g, op)
+            out.append(r)
+            nok += r == 'ok'
+            tags.add(op[0] + (':ok' if r == 'ok' else ':' + r[4:]))
+            if case.get('warm'):
+                histories.warm_caches(g)
+            lines.append('g obs h')
+            out.append(impl.obs(g))
+            if not oracle:
+                bad = impl.views_consistent(g)
+                if bad:
+                    oracle.append(f'constructed graph, after {op[0]} ({r}): ' + bad[0])
+        if not oracle:
+            bad = impl.views_consistent(g)
+            if bad:
+                oracle.append('constructed graph: ' + bad[0])
+        return {'lines': lines, 'impl': out, 'oracle': oracle, 'nontrivial': len(g.get_nodes()) > 0,
+                'key': hashlib.sha1('\n'.join(out).encode()).hexdigest(), 'tags': sorted(tags)}
 
     def run_exh(self, case):
         oracle = []
@@ -48,6 +149,8 @@ class Lane(LaneBase):
     def run_case(self, case):
         if case.get('kind') == 'exh':
             return self.run_exh(case)
+        if case.get('kind') == 'ctor':
+            return self.run_ctor(case)
         g = impl.new_graph(case['cls'], case.get('gmeta') or None)
         lines = [f"g new h {case['cls']} {impl.enc_meta(case.get('gmeta'))}"]
         out = ['ok']
